@@ -1559,9 +1559,11 @@ ASMJIT_FAVOR_SPEED Error BaseRAPass::bin_pack(RegGroup group) noexcept {
       else if (parent_reg->has_home_reg_id()) {
         uint32_t consecutive_id = parent_reg->home_reg_id() + 1;
 
-        // NOTE: We don't support wrapping. If this goes beyond all allocable registers there is something wrong.
+        // NOTE: We don't support wrapping. If this goes beyond all allocable registers (the lead was packed to the last
+        // allocable register, which can happen when some registers are not available) this register just doesn't get
+        // a home register - the home is only a hint, the local allocator decides the final consecutive assignment.
         if (consecutive_id > 31 || !Support::bit_test(available_regs, consecutive_id)) {
-          return make_error(Error::kConsecutiveRegsAllocation);
+          continue;
         }
 
         work_reg->set_hint_reg_id(consecutive_id);
